@@ -100,7 +100,7 @@ class CppViewHelper:
 			"""
 			if len(var_type) == 0:
 				return var_type
-			elif var_type.startswith('const'):
+			elif re.match(r'const\b', var_type):
 				return var_type
 			elif cls.AnnoMutable in annotations:
 				return var_type
